@@ -253,7 +253,45 @@ func Concat(as ...*Term) *Term {
 }
 
 // injective uninterpreted functions: f(x)=f(y) <=> x=y
-var injectiveUF = map[string]bool{"b64": true, "qe": true, "deflate": true}
+var injectiveUF = map[string]bool{"b64": true, "qe": true, "qe1": true, "qe2": true, "deflate": true}
+
+// escapeUF: percent-encoders for query strings. Their results contain neither
+// '&' nor '=' (nor '?', '#', blank). qe is Go's url.QueryEscape; qe1 writes the
+// hex digits in lower case; qe2 writes a blank as %20 instead of '+'.
+var escapeUF = map[string]bool{"qe": true, "qe1": true, "qe2": true}
+
+// EscapeStyle is the concrete function behind qe / qe1 / qe2.
+func EscapeStyle(style int, s string) string {
+	e := url.QueryEscape(s)
+	switch style {
+	case 1:
+		b := []byte(e)
+		for i := 0; i+2 < len(b); i++ {
+			if b[i] == '%' {
+				for j := i + 1; j <= i+2; j++ {
+					if b[j] >= 'A' && b[j] <= 'F' {
+						b[j] += 'a' - 'A'
+					}
+				}
+				i += 2
+			}
+		}
+		return string(b)
+	case 2:
+		return strings.ReplaceAll(e, "+", "%20")
+	}
+	return e
+}
+
+func escapeStyleOf(uf string) int {
+	switch uf {
+	case "qe1":
+		return 1
+	case "qe2":
+		return 2
+	}
+	return 0
+}
 
 // minimal length known for a piece (used to refute equalities with "")
 func minLen(t *Term) int {
@@ -283,7 +321,7 @@ func ampSplit(ps []*Term) (head, tail []*Term, ok bool) {
 				tail = append([]*Term{StrC(p.S[j+1:])}, ps[i+1:]...)
 				return head, tail, true
 			}
-		case p.Op == "uf" && p.S == "qe":
+		case p.Op == "uf" && escapeUF[p.S]:
 		default:
 			return nil, nil, false
 		}
@@ -410,9 +448,9 @@ func Eq(a, b *Term) *Term {
 			if i == 1 {
 				u, k = b, a
 			}
-			if u.Op == "uf" && u.S == "qe" && len(u.Args) == 1 && k.IsConst() {
+			if u.Op == "uf" && escapeUF[u.S] && len(u.Args) == 1 && k.IsConst() {
 				c, err := url.QueryUnescape(k.S)
-				if err != nil || url.QueryEscape(c) != k.S {
+				if err != nil || EscapeStyle(escapeStyleOf(u.S), c) != k.S {
 					return FalseT
 				}
 				return Eq(u.Args[0], StrC(c))
